@@ -1,7 +1,7 @@
 (* C12 — Snapshot requests track snapshot age and versions since, for every config.
    Statements only; proofs live in theories/proofs.  cfg_ok = both targets non-negative and
    inside their integer types (i64 / u32). *)
-From TSS Require Import Urgency proofs.UrgencyArith.
+From TSS Require Import Urgency proofs.UrgencyArith Seq proofs.Inv proofs.Agree proofs.Hist proofs.Snapshot proofs.Counter.
 From Coq Require Import ZArith.
 Open Scope Z_scope.
 
@@ -63,3 +63,15 @@ Proof. exact pinned_release_refuted. Qed.
 Theorem C12_pinned_debug_refuted :
   exists cfg since, cfg_ok cfg /\ for_versions_pinned_debug cfg since = None.
 Proof. exact pinned_debug_refuted. Qed.
+
+(* history half: ghost_meta recomputes, from requests and responses only, the snapshot record
+   (version, time stored, versions since): reset to (v, now, 0) when an upload is accepted by the
+   rule of C10, +1 for every accepted version of the client (Backdate / SetCounter are the
+   harness's knobs).  The urgency sent with an accepted version is urgency_of that record as it
+   was BEFORE the request — so the counter it uses is the number of versions accepted since the
+   snapshot was stored (bounded by 2^32 in the implementation's u32, not in the model). *)
+Theorem C12_from_pre_request_record : forall k cfg h c p d E u,
+  oracle_ok (h ++ [(OAddVersion c p d, E)]) ->
+  responses k cfg (h ++ [(OAddVersion c p d, E)]) = responses k cfg h ++ [RAdded (e_fresh E) u] ->
+  u = urgency_of cfg (ghost_meta c h (responses k cfg h) [] None) (e_now E).
+Proof. exact urgency_from_pre_request_record. Qed.
